@@ -1336,3 +1336,63 @@ def t_built_flag(first_build):
         return w, thunk, {"first_build": first_build}
 
     return build
+
+
+class InstanceObj(SymObj):
+    """the instance a method is looked up on: nothing about it may be consulted (truthiness, length, attributes)"""
+
+    concrete_identity = True
+
+    def py_truth(self, I):
+        raise OutOfSubset("the truth value of the instance is consulted")
+
+    def py_len(self, I):
+        raise OutOfSubset("the length of the instance is consulted")
+
+    def py_getattr(self, I, name):
+        raise OutOfSubset(f"attribute {name} of the instance is consulted")
+
+
+def t_descriptor(which):
+    """C17 / C20: the Ovld object used directly as a class attribute (`__get__`) or called (`__call__`): builds the function iff it
+    has not been built, then binds / calls the user-facing function - with exactly the instance / the arguments given, consulting
+    nothing about the instance."""
+
+    def build():
+        w = CoreWorld()
+        install_common(w)
+
+        def thunk(I):
+            w.reset()
+            s1 = SigTok("s1")
+            o = mk_ovld(w, "o", [], False, compiled=None, locked=False, defns={s1: user_fn("f1", s1)}, I=I)
+            d = DispatchFn(o)
+            bound, called = [], []
+            d.attrs["__get__"] = Builtin("__get__", lambda I, obj, cls=None: (bound.append((obj, cls)), ("BOUND", obj))[1])
+            d.py_call = lambda I, args, kwargs: (called.append((list(args), dict(kwargs))), "RESULT")[1]
+            o.f["dispatch"] = d
+            compiles = []
+
+            def compile_contract(I, args, kwargs):
+                compiles.append(args[0])
+                args[0].f["_compiled"] = True
+                return None
+
+            w.contract("core:Ovld.compile", compile_contract)
+            was_built = I.truth(o.f["_compiled"])
+            was_built = was_built if isinstance(was_built, bool) else I.branch(was_built)
+            inst, cls = InstanceObj(), Tok("class:K")
+            a1, a2 = Tok("arg1"), Tok("arg2")
+            if which == "get":
+                r = I.call_repo("core:Ovld.__get__", [o, inst, cls], {})
+                I.require(len(bound) == 1 and bound[0][0] is inst and bound[0][1] is cls, "the_user_facing_function_is_bound_to_exactly_this_instance_and_class")
+                I.require(isinstance(r, tuple) and r[0] == "BOUND" and r[1] is inst, "the_bound_method_is_returned")
+            else:
+                r = I.call_repo("core:Ovld.__call__", [o, a1, a2], {"k": inst})
+                I.require(len(called) == 1 and len(called[0][0]) == 2 and called[0][0][0] is a1 and called[0][0][1] is a2 and set(called[0][1]) == {"k"} and called[0][1]["k"] is inst, "the_user_facing_function_is_called_with_exactly_the_arguments")
+                I.require(r == "RESULT", "its_result_is_returned")
+            I.require((len(compiles) == 0) if was_built else (len(compiles) == 1 and compiles[0] is o), "built_first_iff_not_built_yet")
+
+        return w, thunk, {"which": which}
+
+    return build
